@@ -2,8 +2,8 @@ import Knut.FactsAgree.TransProcessAllReturns
 /-!
 # `knut portfolio weights`: `j.Build().Process(ComputePrices, check, Valuate, ComputeValues, weights.Query{…}.Execute(j, rep))` — the stages BEFORE the query, over a WHOLE journal
 
-The processor list is the one of `cmd/commands/portfolio/weights.go` (`execute`), in this order — READ OFF THE SOURCE BY HAND (there is
-no extracted constant for it, a stated step):
+The processor list is the one of `cmd/commands/portfolio/weights.go` (`execute`), in this order — read off the source by hand and PINNED
+by `FactsAgree/ProcOrderPortfolio` (`ProcOrder.weightsOrder_eq`, against the list extracted from the source on every run):
 
     journal.ComputePrices(valuation), check.Check(), journal.Valuate(reg, valuation),
     calculator.ComputeValues(), weights.Query{Universe, Partition, Mapping}.Execute(j, rep)
